@@ -51,6 +51,9 @@ func (i *interpreter) fmtValue(fr *frame, verb byte, plus bool, t types.Type, v 
 			if types.Implements(t, errorIface) || types.Implements(t, stringerIface) {
 				for _, m := range []string{"Error", "String"} {
 					if r, ok := i.callMethod(fr, t, v, m); ok {
+						if rp, ok := r.(*rope); ok && rp.done == nil {
+							return rp.parts
+						}
 						if isStr(r) {
 							return strElems(r)
 						}
@@ -390,4 +393,5 @@ func mkRope(parts []value) value {
 var lazyOK = map[string]bool{
 	"fmt.Sprintf": true, "fmt.Sprint": true, "fmt.Sprintln": true, "fmt.Errorf": true,
 	"cosmossdk.io/errors.Wrapf": true,
+	"(*strings.Builder).WriteString": true, "(*strings.Builder).String": true,
 }
